@@ -49,6 +49,12 @@ type MemDB struct {
 	FailAt     int // 1-based; 0 = never
 	NextFailAt int // the query made as call NextFailAt succeeds but its rows fail on the first Next; 0 = never
 	CancelAt   int // cancel the context when call CancelAt has been processed; 0 = never
+	// Settle: after cancelling, stay inside the call for a moment so that database/sql's watcher has marked the
+	// transaction as done before the library makes its next call (Commit then answers sql.ErrTxDone)
+	Settle bool
+	// FaultErr: the error an injected failure returns (nil: a plain driver error); e.g. a context error coming
+	// from the driver while the caller's context is still alive
+	FaultErr error
 	cancel     context.CancelFunc
 	Result     *ResultSet
 	rollbackC  chan struct{}
@@ -128,17 +134,27 @@ func (m *MemDB) step(call DrvCall) (fail bool) {
 func (m *MemDB) afterStep() {
 	if m.CancelAt != 0 && m.calls == m.CancelAt && m.cancel != nil {
 		m.cancel()
+		if m.Settle {
+			time.Sleep(15 * time.Millisecond)
+		}
 	}
 }
 
-var errInjected = errors.New("injected driver failure")
+var errPlain = errors.New("injected driver failure")
+
+func (m *MemDB) errInjected() error {
+	if m.FaultErr != nil {
+		return m.FaultErr
+	}
+	return errPlain
+}
 
 func (c *memConn) BeginTx(ctx context.Context, opts driver.TxOptions) (driver.Tx, error) {
 	m := c.db
 	m.mu.Lock()
 	defer m.mu.Unlock()
 	if m.step(DrvCall{Kind: "begin"}) {
-		return nil, errInjected
+		return nil, m.errInjected()
 	}
 	m.inTx = true
 	m.working = copyTables(m.Committed)
@@ -155,7 +171,7 @@ func (t *memTx) Commit() error {
 	if m.step(DrvCall{Kind: "commit"}) {
 		m.inTx = false
 		m.working = nil
-		return errInjected
+		return m.errInjected()
 	}
 	m.Committed = m.working
 	m.working = nil
@@ -487,7 +503,7 @@ func (c *memConn) ExecContext(ctx context.Context, query string, args []driver.N
 	defer m.mu.Unlock()
 	cells := argsToCells(args)
 	if m.step(DrvCall{Kind: "exec", Text: BStr(query), Args: cells}) {
-		return nil, errInjected
+		return nil, m.errInjected()
 	}
 	err := m.execStmt(query, cells)
 	m.afterStep()
@@ -503,7 +519,7 @@ func (c *memConn) QueryContext(ctx context.Context, query string, args []driver.
 	defer m.mu.Unlock()
 	cells := argsToCells(args)
 	if m.step(DrvCall{Kind: "query", Text: BStr(query), Args: cells}) {
-		return nil, errInjected
+		return nil, m.errInjected()
 	}
 	defer m.afterStep()
 	if m.NextFailAt != 0 && m.calls == m.NextFailAt {
